@@ -167,6 +167,7 @@ class RecurrencePlot(Cached):
 
         self.N: int = 0
         """The number of state vectors (number of lines and rows) of the RP."""
+        self._mut_R: int = 0
         self.R = None
         """The recurrence matrix."""
 
@@ -238,6 +239,15 @@ class RecurrencePlot(Cached):
                 f"time series shape {self.time_series.shape}.\n"
                 f"Embedding dimension {self.dim if self.dim else 0}\n"
                 f"Threshold {self.threshold}, {self.metric} metric")
+
+    @property
+    def R(self):
+        return self._R
+
+    @R.setter
+    def R(self, R):
+        self._R = R
+        self._mut_R += 1
 
     @property
     def embedding(self) -> np.ndarray:
@@ -843,7 +853,7 @@ class RecurrencePlot(Cached):
     #
 
     @Cached.method(attrs=(
-        "metric", "threshold", "missing_values", "sparse_rqa"))
+        "metric", "threshold", "missing_values", "sparse_rqa", "_mut_R"))
     def diagline_dist(self):
         """
         Return the :index:`frequency distribution of diagonal line lengths
@@ -1068,7 +1078,7 @@ class RecurrencePlot(Cached):
     #
 
     @Cached.method(attrs=(
-        "metric", "threshold", "missing_values", "sparse_rqa"))
+        "metric", "threshold", "missing_values", "sparse_rqa", "_mut_R"))
     def vertline_dist(self):
         """
         Return the :index:`frequency distribution of vertical line lengths
